@@ -19,6 +19,8 @@
      becomes single-valued: the key no longer matches (Tie_refs_exist), and
      the reference cannot be rewritten to the single-valued form
      (Tie_quit_roles_named);
+   - a new panic(...) on an error value, or a new error return in a function
+     whose error a caller turns into a panic: Tie_complete / Tie_fail_paths;
    - ChainService.Stop or a component's Stop changes its order of steps:
      Tie_stop_sequences / Tie_stop_order;
    - a listed function disappears: Tie_complete (kind MissingFunction).     *)
@@ -30,6 +32,8 @@ Open Scope string_scope.
 Definition covered (g : gsite) : bool :=
   kind_eqb (g_kind g) SelectDefault
   || kind_eqb (g_kind g) MakeChan   (* not a blocking site; see Tie_capacities *)
+  || kind_eqb (g_kind g) Panic      (* a panic that does not depend on an error value *)
+  || existsb (fun f => matches (f_key f) g) fail_paths   (* see Tie_fail_paths *)
   || existsb (fun r => matches (r_key r) g) site_refs
   || existsb (fun sq => String.eqb (fst sq) (g_fn g)) stop_sequences
   || existsb (fun a => matches (a_key a) g) nonblocking_or_irrelevant.
@@ -180,6 +184,14 @@ Theorem Tie_capacities :
       (filter (fun c => negb (cap_ok c)) (flat_map a_caps nonblocking_or_irrelevant)) = [].
 Proof. vm_compute. reflexivity. Qed.
 Print Assumptions Tie_capacities.
+
+(* the panic-on-error sites and the error returns feeding them are exactly
+   the listed ones *)
+Theorem Tie_fail_paths :
+  map (fun f => (f_key f, count_of (f_key f) wait_sites))
+      (filter (fun f => negb (Nat.eqb (count_of (f_key f) wait_sites) (f_count f)) || Nat.eqb (f_count f) 0) fail_paths) = [].
+Proof. vm_compute. reflexivity. Qed.
+Print Assumptions Tie_fail_paths.
 
 Theorem Tie_supports_exist :
   filter (fun s => let '(_, k, n) := s in negb (Nat.eqb (count_of k wait_sites) n)) supports = [].
